@@ -19,8 +19,8 @@ Theorem C18_every_name_in_exactly_one_group :
   forall (V : Type) (r : list (Z * V)) ins outs consts g,
     partition r ins outs consts = Ok g ->
     Permutation r (g_inputs g ++ g_outputs g ++ g_constants g ++ g_intermediates g) /\
-    map fst (g_inputs g) = ins /\ map fst (g_outputs g) = dedup [] outs /\
-    map fst (g_constants g) = consts.
+    map fst (g_inputs g) = ins /\ map fst (g_outputs g) = dedup ins outs /\
+    map fst (g_constants g) = dedup (ins ++ outs) consts.
 Proof. exact partition_exact. Qed.
 Print Assumptions C18_every_name_in_exactly_one_group.
 
@@ -40,17 +40,17 @@ Theorem C18_filing_succeeds_on_distinct_present_names :
 Proof. exact pop_all_total. Qed.
 Print Assumptions C18_filing_succeeds_on_distinct_present_names.
 
-(* the output names are filed once each, first occurrences in order (a tensor
-   may be listed under several signature outputs); without repetition that is
-   the output list itself *)
+(* the names of a group are filed once each — first occurrences, in order,
+   minus those already filed under an earlier group ([seen]: an output that is
+   also an input, a constant that is also an output); without repetition and
+   overlap that is the list itself *)
 Theorem C18_output_names_filed_once :
-  forall outs,
-    NoDup (dedup [] outs) /\ (forall n, In n (dedup [] outs) <-> In n outs) /\
-    (NoDup outs -> dedup [] outs = outs).
+  forall seen names,
+    NoDup (dedup seen names) /\ (forall n, In n (dedup seen names) <-> In n names /\ ~ In n seen) /\
+    (NoDup names -> (forall n, In n names -> ~ In n seen) -> dedup seen names = names).
 Proof.
-  intros outs. destruct (dedup_spec outs []) as (ND & I). split; [exact ND|]. split.
-  - intros n. rewrite I. split; [intros [A _]; exact A|intros A; split; [exact A|intros []]].
-  - intros H. apply dedup_nodup; [exact H|intros ? _ []].
+  intros seen names. destruct (dedup_spec names seen) as (ND & I). split; [exact ND|]. split; [exact I|].
+  intros H1 H2. apply dedup_nodup; assumption.
 Qed.
 Print Assumptions C18_output_names_filed_once.
 
@@ -78,8 +78,9 @@ Example C18_nonvacuous :
   | Ok g => g_inputs g = [(1, 10)] /\ g_outputs g = [(4, 40)] /\ g_constants g = [(2, 20)] /\
             g_intermediates g = [(3, 30); (5, 50)]
   | Err _ => False end /\
-  partition [(1, 10); (2, 20)] [1] [1] [] = Err KeyError /\
-  match partition [(1, 10); (2, 20); (3, 30)] [1] [3; 3] [] with
-  | Ok g => g_outputs g = [(3, 30)] /\ g_intermediates g = [(2, 20)]
+  partition [(1, 10); (2, 20)] [1; 1] [] [] = Err KeyError /\
+  match partition [(1, 10); (2, 20); (3, 30)] [1] [3; 3; 1] [3; 2] with
+  | Ok g => g_inputs g = [(1, 10)] /\ g_outputs g = [(3, 30)] /\ g_constants g = [(2, 20)] /\
+            g_intermediates g = []
   | Err _ => False end.
 Proof. vm_compute. repeat split. Qed.
